@@ -362,6 +362,10 @@ type gmsg struct {
 	mtiLen int
 }
 
+// set by the specjson generator: the export format prints Spec.Length as written (0 is left out), which the model's
+// bitmap specification - it carries the block size - does not distinguish from 8
+var explicitBitmapLength bool
+
 func genMsg(r *Rng, deficient bool) *gmsg {
 	g := &gmsg{B: 1 + r.Intn(16), auto: r.Bool(), nodes: map[int]*gnode{}}
 	if r.Chance(1, 3) {
@@ -396,6 +400,15 @@ func genMsg(r *Rng, deficient bool) *gmsg {
 			cand = append([]int{b}, cand...)
 		}
 	}
+	// a bitmap-deficient spec is only interesting when an element the bitmap cannot announce gets populated: put such
+	// numbers first (fixed bitmap: just beyond its last bit; expanding bitmap: the first bits of later blocks)
+	if deficient {
+		if g.auto {
+			cand = append([]int{8*g.B*(1+r.Intn(3)) + 1}, cand...)
+		} else {
+			cand = append([]int{8*g.B + 1 + r.Intn(8*g.B), 8*g.B + 1}, cand...)
+		}
+	}
 	nf := 1 + r.Intn(6)
 	seen := map[int]bool{}
 	for i := 0; len(g.ids) < nf && i < 50; i++ {
@@ -424,6 +437,11 @@ func genMsg(r *Rng, deficient bool) *gmsg {
 	for _, id := range g.ids {
 		fts = append(fts, L(I(id), g.nodes[id].term))
 	}
-	g.term = L(A("M"), mti, L(I(g.B), B(g.auto), A(bmEnc), A(bmPref)), L(fts...))
+	// a block of 8 bytes is also written as Length 0 (the default of field.NewBitmap)
+	termB := g.B
+	if g.B == 8 && !explicitBitmapLength && r.Bool() {
+		termB = 0
+	}
+	g.term = L(A("M"), mti, L(I(termB), B(g.auto), A(bmEnc), A(bmPref)), L(fts...))
 	return g
 }
